@@ -1014,6 +1014,22 @@ func ruleMatchByRegexpOnly(id string) func(*Checker) {
 				c.check(ok, id, p.FuncName(fn), fmt.Sprintf("answer %d is the pattern's", i), p.Pos(r.Pos()), "the result of regex.MatchString", "the matcher answers without asking the compiled pattern (a constant, a prefix or segment comparison): that answer has to coincide with the pattern for every path, and nothing shows that it does")
 			}
 		}
+		if n == 0 {
+			// the matcher written out in the rule loop: what is decided per rule (every read of the rule's
+			// negation flag) lies behind the true edge of the pattern's answer
+			if mc := inlineRuleMatch(p); mc != nil {
+				fn := mc.Parent()
+				tE, _ := boolEdges(fn, mc)
+				eachInstr(fn, func(in ssa.Instruction) {
+					fa, ok := in.(*ssa.FieldAddr)
+					if !ok || fieldOf(fa) == nil || fieldOf(fa).Name() != "negated" || !inLoop(fa.Block()) {
+						return
+					}
+					n++
+					c.check(len(tE) > 0 && guarded(fa.Block(), tE), id, p.FuncName(fn), "a rule counts only when its pattern matches", p.Pos(fa.Pos()), "behind the true edge of regex.MatchString", "a rule is counted as matching without (or against) the answer of its compiled pattern")
+				})
+			}
+		}
 		c.check(n > 0, id, "-", "rule matcher found", "-", fmt.Sprintf("%d answering return(s)", n), "no (bool, error) method of the rule type found")
 	}
 }
